@@ -3,28 +3,31 @@
 # (applies to the pristine worktree, builds, vet + gofmt clean, full existing suite passes) and keep
 # the confirmed ones under /verif/corpus/benign/<Cxx>-<S>/
 set -u
-id="$1"; wt=/tmp/wb-$id
+# WT_PREFIX (default /tmp/wb) names the worktrees, SUFFIX (default empty) is appended to the kept
+# id (wave 3: WT_PREFIX=/tmp/wb3 SUFFIX=3), KEEP_DIR (default corpus/benign) is where they go
+id="$1"; wt=${WT_PREFIX:-/tmp/wb}-$id; sfx=${SUFFIX:-}; keep=${KEEP_DIR:-/verif/corpus/benign}
+only=${ONLY:-A B C}
 . /verif/env.sh
 cd "$wt" || exit 2
-for s in A B C; do
+for s in $only; do
   d="_benign/$s"; [ -f "$d/patch.diff" ] || continue
   git checkout -q -- . ; git clean -fdq -e _benign
   if ! git apply --check "$d/patch.diff" 2>/dev/null; then echo "$id-$s PATCH-DOES-NOT-APPLY"; continue; fi
   git apply "$d/patch.diff"
   go build ./... && go vet ./ >/dev/null 2>&1; b=$?
   f=$(gofmt -l . 2>/dev/null | grep -v _benign | head -1)
-  unshare -rn sh -c 'ip link set lo up; go test -vet=off -count=1 -timeout 25m ./...' > /tmp/bk-$id-$s.log 2>&1; r=$?
+  unshare -rn sh -c 'ip link set lo up; go test -vet=off -count=1 -timeout 25m ./...' > /tmp/bk$sfx-$id-$s.log 2>&1; r=$?
   if [ $r -ne 0 ]; then
     r=0
-    for t in $(grep -E "^--- FAIL" /tmp/bk-$id-$s.log | awk '{print $3}' | cut -d/ -f1 | sort -u); do
-      okt=1; for k in 1 2 3; do if unshare -rn sh -c "ip link set lo up; go test -vet=off -count=1 -run '^$t\$' ./..." > /tmp/bk-$id-$s.re 2>&1; then okt=0; break; fi; if go test -vet=off -count=1 -run "^$t\$" ./... > /tmp/bk-$id-$s.re 2>&1; then okt=0; break; fi; done
+    for t in $(grep -E "^--- FAIL" /tmp/bk$sfx-$id-$s.log | awk '{print $3}' | cut -d/ -f1 | sort -u); do
+      okt=1; for k in 1 2 3; do if unshare -rn sh -c "ip link set lo up; go test -vet=off -count=1 -run '^$t\$' ./..." > /tmp/bk$sfx-$id-$s.re 2>&1; then okt=0; break; fi; if go test -vet=off -count=1 -run "^$t\$" ./... > /tmp/bk$sfx-$id-$s.re 2>&1; then okt=0; break; fi; done
       echo "   re-run $t: $([ $okt -eq 0 ] && echo passes-on-retry || echo STILL-FAILS)"; [ $okt -ne 0 ] && r=1
     done
-    grep -qE "^(--- FAIL)" /tmp/bk-$id-$s.log || r=1
+    grep -qE "^(--- FAIL)" /tmp/bk$sfx-$id-$s.log || r=1
   fi
   git checkout -q -- . ; git clean -fdq -e _benign
   if [ $b -eq 0 ] && [ -z "$f" ] && [ $r -eq 0 ]; then
-    k=/verif/corpus/benign/$id-$s; mkdir -p $k; cp $d/patch.diff $k/
+    k=$keep/$id-$s$sfx; mkdir -p $k; cp $d/patch.diff $k/
     python3 - "$d/meta.json" "$k/meta.json" "$id" <<'PY'
 import json,sys
 try: m=json.load(open(sys.argv[1]))
@@ -35,7 +38,7 @@ json.dump(m,open(sys.argv[2],"w"),indent=1)
 PY
     echo "$id-$s CONFIRMED kept $k"
   else
-    echo "$id-$s NOT-CONFIRMED build=$b gofmt='$f' suite=$r (log /tmp/bk-$id-$s.log)"
+    echo "$id-$s NOT-CONFIRMED build=$b gofmt='$f' suite=$r (log /tmp/bk$sfx-$id-$s.log)"
   fi
-  rm -f /tmp/bk-$id-$s.re
+  rm -f /tmp/bk$sfx-$id-$s.re
 done
